@@ -6,8 +6,8 @@ Driver commands for the compositor model (C11, C13).
   comp.spec       <request>   -> ok  p0,p1,... <shape> <alpha>     the published model (`Model/CompositeSpec.lean`, tabulating
                                  evaluator = `specDoc`, `specDocF_eq`) with the group-alpha rule of a knockout element AS CODED:
                                  group colour PREMULTIPLIED by the group alpha, group shape, group alpha.
-                                 `compositor_refines_spec_coded_knockout_doc`: p_i = c_i * alpha of `comp.pixel`, same shape, alpha.
-  comp.spec.pub   <request>   -> the same with the PUBLISHED rule (PDF 1.7 11.4.6); equal to `comp.spec` on trees without
+                                 `compositor_refines_spec_doc`: p_i = c_i * alpha of `comp.pixel`, same shape, alpha.
+  comp.spec.alt   <request>   -> the same with the PUBLISHED rule (PDF 1.7 11.4.6); equal to `comp.spec` on trees without
                                  knockout flags (`compositor_refines_spec_partial_doc`)
 
 One request = ONE tab field of space-separated tokens (rationals `n/d` or `n`, booleans `0`/`1`):
@@ -233,8 +233,8 @@ def runSpec (rule : KoRule) (args : List String) : String :=
 def cmds : List (String × Cmd) := [
   ("comp.pixel", run true),
   ("comp.pixel.ref", run false),
-  ("comp.spec", runSpec .asCoded),
-  ("comp.spec.pub", runSpec .published)
+  ("comp.spec", runSpec .pdf17),
+  ("comp.spec.alt", runSpec .alphaCoherent)
 ]
 
 end Driver.Composite
